@@ -179,7 +179,7 @@ class FloatCtx(BaseCtx):
         else:
             self.fail(label, 'native floats: %r != %r' % (a, b))
 
-    def check(self, label, cond, detail=None):
+    def check(self, label, cond, detail=None, nonlinear=False):
         if cond:
             self.ok(label)
         else:
@@ -254,6 +254,13 @@ class SymCtx(BaseCtx):
         self.lemmas_used.add(lemma)
 
     # ---- obligations
+    def fail(self, label, detail):
+        """structural failures (check_true, check_raises, length mismatch) carry a plain message: attach concrete
+        inputs of the current path so that the native replay runs on values that satisfy the precondition"""
+        if not isinstance(detail, dict):
+            detail = self._cex(str(detail), None)
+        BaseCtx.fail(self, label, detail)
+
     def check_eq(self, label, a, b):
         d = self.q.lift(a) - self.q.lift(b)
         if self.w.is_zero(d):
@@ -261,9 +268,11 @@ class SymCtx(BaseCtx):
             return
         self.fail(label, self._cex('identity does not hold: difference = %s' % _short(repr(d)), d))
 
-    def check(self, label, cond, detail=None):
-        """order / logic obligation given as a condition built with lt/le/...: pc => cond"""
-        if self.w.must(self._division_free(cond)):
+    def check(self, label, cond, detail=None, nonlinear=False):
+        """order / logic obligation given as a condition built with lt/le/...: pc => cond
+        nonlinear=True: cond is a polynomial (in)equality (e.g. from sign_free_le on a rational function); it is
+        sent straight to a fresh nlsat solver instead of first timing out in the incremental linear core"""
+        if self.w.must(self._division_free(cond), fresh=nonlinear):
             self.ok(label)
             return
         self.fail(label, self._cex(detail or 'order obligation not implied by the path condition', None))
